@@ -247,6 +247,10 @@ def run_side(cmd, cases, stateful, timeout, max_restarts=40):
                 crashed = True
                 break
             if stateful:
+                # lines printed before `= case` (end-of-case checks such as the leak check of the
+                # previous case) belong to the previous case
+                if got and got[0][1] and start + ci > 0 and results[start + ci - 1] is not None:
+                    results[start + ci - 1]["trailing"] = list(results[start + ci - 1]["trailing"]) + list(got[0][1])
                 got = got[1:]
             results[start + ci] = {"outs": got, "crash": None, "trailing": []}
             pos += need
@@ -345,13 +349,14 @@ def evaluate_case(prop, case, c_res, l_res):
     c_outs = c_res["outs"]
     l_outs = l_res["outs"] if l_res else None
     # harness-side oracle lines
+    ignore = tuple("ORACLE-FAIL " + w for w in getattr(prop, "IGNORE_ORACLE", []))
     for i, (main, extras) in enumerate(c_outs):
         for e in extras:
-            if e.startswith("ORACLE-FAIL"):
+            if e.startswith("ORACLE-FAIL") and not e.startswith(ignore or ("\0",)):
                 fails.append({"kind": "oracle", "op": i, "signature": prop.signature(case, i, e),
                               "detail": e})
     for e in c_res["trailing"]:
-        if e.startswith("ORACLE-FAIL"):
+        if e.startswith("ORACLE-FAIL") and not e.startswith(ignore or ("\0",)):
             fails.append({"kind": "oracle", "op": len(case.ops) - 1,
                           "signature": prop.signature(case, len(case.ops) - 1, e), "detail": e})
     if c_res["crash"]:
@@ -396,6 +401,10 @@ def main():
     rng = random.Random((seed << 8) ^ int(pid[1:]))
     evid_path = os.path.join(VERIF, "evidence", pid + ".json")
     os.makedirs(os.path.join(VERIF, "evidence", "replays"), exist_ok=True)
+    if not args.replay:
+        import glob
+        for old in glob.glob(os.path.join(VERIF, "evidence", "replays", "%s-%d-*.json" % (pid, seed))):
+            os.remove(old)
     violations = []      # (replay_path, suffix)
     known_printed = []
     notes = []
@@ -568,7 +577,7 @@ def main():
             "cases": len(cases),
             "distinct_nontrivial": len(tags),
             "rule": prop.RULE,
-            "tag_histogram": dict(sorted(tags.items(), key=lambda kv: -kv[1])[:40]),
+            "tag_histogram": dict(sorted(tags.items(), key=lambda kv: -kv[1])[:400]),
             "traces_validated_against_impl": len(cases) if (c_results and l_results) else 0,
             "correspondence_disagreements": diffs,
             "samples": samples,
